@@ -684,17 +684,24 @@ def c09_simpl(R):
         construct="simplify(And(*to_simplify))",
     )
     assigns = [a for a in util.attr_writes(fn, "self") if a[0] == "constraints" and a[1] == "assign"]
+    # the split of the simplified result may be written in place or through a local
+    val = assigns[0][3] if len(assigns) == 1 else None
+    split_expr = None
+    if isinstance(val, ast.BinOp) and isinstance(val.op, ast.Add) and ast.unparse(val.left) == "no_simplify":
+        split_expr = val.right
+        if isinstance(split_expr, ast.Name):
+            d = [st for st in fn.body if isinstance(st, ast.Assign) and ast.unparse(st.targets[0]) == split_expr.id]
+            split_expr = d[0].value if len(d) == 1 else None
     R.check(
-        len(assigns) == 1 and sorted(n.id for n in ast.walk(assigns[0][3]) if isinstance(n, ast.Name)) == ["no_simplify", "simplified_split"],
+        split_expr is not None,
         m,
         fn,
         "new constraint list = untouched part + simplified part",
-        "the new constraint list is not no_simplify + simplified_split (a constraint is dropped or duplicated)",
+        "the new constraint list is not <kept-aside list> + <split of the simplified conjunction> (a constraint is dropped or duplicated)",
         construct="self.constraints = no_simplify + simplified_split",
     )
-    split = [st for st in fn.body if isinstance(st, ast.Assign) and ast.unparse(st.targets[0]) == "simplified_split"]
     R.check(
-        split and "simplified.op == 'And'" in ast.unparse(split[0].value) and "[simplified]" in ast.unparse(split[0].value),
+        split_expr is not None and util.alpha_eq(split_expr, "list(simplified.args) if simplified.op == 'And' else [simplified]", fn),
         m,
         fn,
         "a simplified conjunction is split, anything else kept whole",
